@@ -33,6 +33,11 @@ def run(tier):
             src, mods = progs.generate(rng.fork(str(i)), prof)
             plist.append({"name": "%s/%d" % (name, i), "steps": [("snip", src)], "mods": mods})
 
+    from ..gen import feat_cls
+    rh = ck.rng.fork("hostclasses")
+    for i in range(300 if quick else 8000):
+        plist.append({"name": "hostcls/%d" % i, "steps": [("snip", feat_cls.host_class_program(rh.fork(str(i))))], "mods": [], "hostclasses": True})
+
     def seen(p, m, res):
         v = m["view"][0]
         src = p["steps"][0][1]
@@ -49,7 +54,7 @@ def run(tier):
     ck.coverage["programs_discarded_by_model"] = discarded
     return ck.finish("programs from the classes profile (hierarchies up to depth ~4, overriding, shadowing fields, "
                      "methods in fields and variables, statics and Self, default/explicit constructors, super, rebinding, "
-                     "local classes, classes declared inside static / instance / constructor methods and lambdas of other classes, wrong arities, unknown members, non-class superclasses) against the reference model; "
+                     "host-declared classes with native methods and script subclasses of them, local classes, classes declared inside static / instance / constructor methods and lambdas of other classes, wrong arities, unknown members, non-class superclasses) against the reference model; "
                      "non-trivial = distinct program declaring a class that printed at least two lines")
 
 
